@@ -7,6 +7,7 @@ import Drx.Lscr
 import Drx.Gen.Mutations
 import DrxProofs.LscrGen
 import DrxProofs.LscrRegs
+import DrxProofs.LscrFlow
 namespace Drx.C12
 open Drx Drx.Lscr
 
@@ -114,5 +115,15 @@ theorem parse_after_history (r : Regs) (lscr lnam : Bytes) :
 /-- the table fact behind it, on the regenerated opcode table: a class whose `process` reads an operand register is
     registered with an instruction length under which `parse_opcodes` writes that register first -/
 theorem opcode_table_registers_ok : regsTableOk = true := regsTableOk_true
+
+/-- model hygiene: the runtime guards that make the parser's loops well-founded restate facts of the computation.
+    Every instruction advances the read position (so `opcodeLoop` needs no guard), and the three loop rewrites never grow
+    the loop body (the guard `weightList r.stmts ≤ weightList body` of `loopWalk` is always true). -/
+theorem parser_loops_progress :
+    (∀ (ctx : Ctx) (d : Bytes) (idxc : Int) (regs : Regs) (st : PState) (r : Int × Regs × PState),
+        stepOpcode ctx d idxc idxc regs st = .ok r → r.1 > idxc) ∧
+    (∀ (r : Ro) (prev : Option Node) (r' : Ro) (rm : Bool),
+        rewriteRepeat r prev = .ok (r', rm) → weightList r'.stmts ≤ weightList r.stmts) :=
+  ⟨fun _ _ _ _ _ _ h => stepOpcode_advance h, fun _ _ _ _ h => rewriteRepeat_weight h⟩
 
 end Drx.C12
